@@ -49,6 +49,12 @@ def replay_defrag_case(case):
     fails = []
     target = "path" if (h // 3 + seed) % 4 == 0 else "stream"
     index = (h // 12) % 2 == 1
+    big = any(o["n"] > 100000 for s_ in rec["file"] for o in s_["layout"])
+    if big and not case.get("_target"):
+        a = replay_defrag_case(dict(case, _target="stream"))
+        b = replay_defrag_case(dict(case, _target="path"))
+        return {"n": a["n"] + b["n"], "keys": a["keys"], "fails": a["fails"] + b["fails"], "validated": 1}
+    target = case.get("_target", target)
     bundle = {"case": rec["file"], "ty": rec["ty"], "seed": seed, "rot": case.get("rot", 0), "target": target,
               "index": index, "hex": e.data.hex(), "scaled_channel": scaled_chan}
     tys = {c: (None if t == "none" else (tm.get(t, t) if tm else t)) for c, t in _as_dict(rec["view"]["ty"]).items()}
